@@ -56,6 +56,272 @@ theorem C06_items_and_signature {f : VFile.File} {enc : Encode.Enc} {t : Table.T
   obtain ⟨a, b⟩ := mapM_names _ _ _ h8
   exact ⟨a, b, h5, h3⟩
 
+/-! ### fields: what each emitted item contains -/
+
+open Ast in
+/-- the fields the user named (a `_` field is not part of the emitted type), in order -/
+def usedNamed (fs : List NamedField) : List (Str × SymId) :=
+  fs.filterMap fun f => match f.name with | .id i => some (i.name, f.sym) | .us _ => none
+
+open Ast in
+def usedTuple (fs : List TupleField) : List SymId :=
+  fs.filterMap fun | .used s => some s | .skipped _ => none
+
+open Ast in
+/-- the Rust type of a field of symbol `s`: `Box<N>` for a nonterminal, the terminal's declared payload type
+(looked up in the terminal enum) for a terminal -/
+def SymTy (te : VFile.TermEnum) (s : SymId) (ty : Str) : Prop :=
+  match s with
+  | .n i => ty = L "Box<" ++ i.name ++ L ">"
+  | .t i => te.getType i.name = some ty
+
+open Ast in
+theorem usedNamed_cons_id {f : NamedField} {fs : List NamedField} {i : Ident} (h : f.name = .id i) :
+    usedNamed (f :: fs) = (i.name, f.sym) :: usedNamed fs := by
+  simp only [usedNamed, List.filterMap_cons, h]
+
+open Ast in
+theorem usedNamed_cons_us {f : NamedField} {fs : List NamedField} {p : Nat} (h : f.name = .us p) :
+    usedNamed (f :: fs) = usedNamed fs := by
+  simp only [usedNamed, List.filterMap_cons, h]
+
+open Ast in
+theorem usedTuple_cons_used (s : SymId) (fs : List TupleField) : usedTuple (.used s :: fs) = s :: usedTuple fs := by
+  simp only [usedTuple, List.filterMap_cons]
+
+open Ast in
+theorem usedTuple_cons_skipped (s : SymId) (fs : List TupleField) : usedTuple (.skipped s :: fs) = usedTuple fs := by
+  simp only [usedTuple, List.filterMap_cons]
+
+theorem fieldType_symTy {te : VFile.TermEnum} {s : Ast.SymId} {ty : Str} (h : fieldType te s = some ty) : SymTy te s ty := by
+  cases s with
+  | n i => simp only [fieldType, Option.some.injEq] at h; exact h.symm
+  | t i => exact h
+
+open Ast in
+theorem namedFieldTypes_spec (te : VFile.TermEnum) : ∀ (fs : List NamedField) (r : List (Str × Str)),
+    namedFieldTypes te fs = some r →
+    r.map (·.1) = (usedNamed fs).map (·.1) ∧
+    ∀ (k : Nat) (p : Str × Str) (q : Str × SymId), r[k]? = some p → (usedNamed fs)[k]? = some q → SymTy te q.2 p.2 := by
+  intro fs
+  induction fs with
+  | nil => intro r h; simp [namedFieldTypes] at h; subst h; exact ⟨rfl, by intro k p q hp; simp at hp⟩
+  | cons f fs ih =>
+    intro r h
+    simp only [namedFieldTypes] at h
+    cases hn : f.name with
+    | us p0 =>
+      rw [hn] at h
+      obtain ⟨i1, i2⟩ := ih r h
+      rw [usedNamed_cons_us hn]
+      exact ⟨i1, i2⟩
+    | id i =>
+      rw [hn] at h
+      simp only [Option.bind_eq_bind, Option.pure_def] at h
+      cases hty : fieldType te f.sym with
+      | none => rw [hty] at h; cases h
+      | some ty =>
+        rw [hty] at h
+        simp only [Option.bind_some] at h
+        cases hrest : namedFieldTypes te fs with
+        | none => rw [hrest] at h; cases h
+        | some rest =>
+          rw [hrest] at h
+          simp only [Option.bind_some, Option.some.injEq] at h
+          subst h
+          obtain ⟨i1, i2⟩ := ih rest hrest
+          rw [usedNamed_cons_id hn]
+          simp only [List.map_cons]
+          refine ⟨by rw [i1], ?_⟩
+          intro k p q hp hq
+          cases k with
+          | zero =>
+            simp only [List.getElem?_cons_zero, Option.some.injEq] at hp hq
+            subst hp; subst hq
+            exact fieldType_symTy hty
+          | succ k =>
+            simp only [List.getElem?_cons_succ] at hp hq
+            exact i2 k p q hp hq
+
+open Ast in
+theorem tupleFieldTypes_spec (te : VFile.TermEnum) : ∀ (fs : List TupleField) (r : List Str),
+    tupleFieldTypes te fs = some r →
+    r.length = (usedTuple fs).length ∧
+    ∀ (k : Nat) (p : Str) (q : SymId), r[k]? = some p → (usedTuple fs)[k]? = some q → SymTy te q p := by
+  intro fs
+  induction fs with
+  | nil => intro r h; simp [tupleFieldTypes] at h; subst h; exact ⟨rfl, by intro k p q hp; simp at hp⟩
+  | cons f fs ih =>
+    intro r h
+    cases f with
+    | skipped s0 =>
+      simp only [tupleFieldTypes] at h
+      obtain ⟨i1, i2⟩ := ih r h
+      rw [usedTuple_cons_skipped]
+      exact ⟨i1, i2⟩
+    | used s0 =>
+      simp only [tupleFieldTypes, Option.bind_eq_bind, Option.pure_def] at h
+      cases hty : fieldType te s0 with
+      | none => rw [hty] at h; cases h
+      | some ty =>
+        rw [hty] at h
+        simp only [Option.bind_some] at h
+        cases hrest : tupleFieldTypes te fs with
+        | none => rw [hrest] at h; cases h
+        | some rest =>
+          rw [hrest] at h
+          simp only [Option.bind_some, Option.some.injEq] at h
+          subst h
+          obtain ⟨i1, i2⟩ := ih rest hrest
+          rw [usedTuple_cons_used]
+          simp only [List.length_cons]
+          refine ⟨by rw [i1], ?_⟩
+          intro k p q hp hq
+          cases k with
+          | zero =>
+            simp only [List.getElem?_cons_zero, Option.some.injEq] at hp hq
+            subst hp; subst hq
+            exact fieldType_symTy hty
+          | succ k =>
+            simp only [List.getElem?_cons_succ] at hp hq
+            exact i2 k p q hp hq
+
+open Ast in
+/-- what the emitted field list of a fieldset is: unit-like when no field is used (`_` fields are omitted), else
+the used fields in declaration order, named fields with their names, each with `Box<N>` or the terminal's
+payload type -/
+def BodyMirrors (te : VFile.TermEnum) : Fieldset → Body → Prop
+  | .empty, b => b = .unit
+  | .named fs, b =>
+    (usedNamed fs = [] ∧ b = .unit) ∨
+    (usedNamed fs ≠ [] ∧ ∃ r, b = .named r ∧ r.map (·.1) = (usedNamed fs).map (·.1) ∧
+      ∀ (k : Nat) (p : Str × Str) (q : Str × SymId), r[k]? = some p → (usedNamed fs)[k]? = some q → SymTy te q.2 p.2)
+  | .tuple fs, b =>
+    (usedTuple fs = [] ∧ b = .unit) ∨
+    (usedTuple fs ≠ [] ∧ ∃ r, b = .tuple r ∧ r.length = (usedTuple fs).length ∧
+      ∀ (k : Nat) (p : Str) (q : SymId), r[k]? = some p → (usedTuple fs)[k]? = some q → SymTy te q p)
+
+open Ast in
+theorem usedNamed_nil_iff (fs : List NamedField) : usedNamed fs = [] ↔ fs.any NamedField.isUsed = false := by
+  induction fs with
+  | nil => simp [usedNamed]
+  | cons f fs ih =>
+    cases hn : f.name with
+    | us p => rw [usedNamed_cons_us hn]; simp only [List.any_cons, NamedField.isUsed, hn, Bool.false_or]; exact ih
+    | id i => rw [usedNamed_cons_id hn]; simp [NamedField.isUsed, hn]
+
+open Ast in
+theorem usedTuple_nil_iff (fs : List TupleField) : usedTuple fs = [] ↔ fs.any TupleField.isUsed = false := by
+  induction fs with
+  | nil => simp [usedTuple]
+  | cons f fs ih =>
+    cases f with
+    | skipped s => rw [usedTuple_cons_skipped]; simp only [List.any_cons, TupleField.isUsed, Bool.false_or]; exact ih
+    | used s => rw [usedTuple_cons_used]; simp [TupleField.isUsed]
+
+theorem bodyOf_mirrors {te : VFile.TermEnum} {fs : Ast.Fieldset} {b : Body} (h : bodyOf te fs = some b) :
+    BodyMirrors te fs b := by
+  cases fs with
+  | empty => simp only [bodyOf, Option.some.injEq] at h; exact h.symm
+  | named flds =>
+    simp only [bodyOf] at h
+    by_cases hu : flds.any Ast.NamedField.isUsed = true
+    · rw [hu] at h
+      simp only [Bool.not_true, Bool.false_eq_true, if_false, Option.map_eq_some_iff] at h
+      obtain ⟨r, hr, rfl⟩ := h
+      obtain ⟨a1, a2⟩ := namedFieldTypes_spec te flds r hr
+      exact Or.inr ⟨by rw [Ne, usedNamed_nil_iff]; simp [hu], r, rfl, a1, a2⟩
+    · have hf : flds.any Ast.NamedField.isUsed = false := by simpa using hu
+      rw [hf] at h
+      simp only [Bool.not_false, if_true, Option.some.injEq] at h
+      exact Or.inl ⟨(usedNamed_nil_iff flds).mpr hf, h.symm⟩
+  | tuple flds =>
+    simp only [bodyOf] at h
+    by_cases hu : flds.any Ast.TupleField.isUsed = true
+    · rw [hu] at h
+      simp only [Bool.not_true, Bool.false_eq_true, if_false, Option.map_eq_some_iff] at h
+      obtain ⟨r, hr, rfl⟩ := h
+      obtain ⟨a1, a2⟩ := tupleFieldTypes_spec te flds r hr
+      exact Or.inr ⟨by rw [Ne, usedTuple_nil_iff]; simp [hu], r, rfl, a1, a2⟩
+    · have hf : flds.any Ast.TupleField.isUsed = false := by simpa using hu
+      rw [hf] at h
+      simp only [Bool.not_false, if_true, Option.some.injEq] at h
+      exact Or.inl ⟨(usedTuple_nil_iff flds).mpr hf, h.symm⟩
+
+/-- an emitted item mirrors its declaration, field by field -/
+def DefMirrors (te : VFile.TermEnum) : VFile.Nonterminal → TypeDef → Prop
+  | .struct s, .struct _ name body => name = s.name.name ∧ BodyMirrors te s.fieldset body
+  | .enum e, .enum _ name vs =>
+    name = e.name.name ∧ vs.map (·.1) = e.variants.map (·.name.name) ∧
+    ∀ (k : Nat) (v : Ast.Variant) (p : Str × Body), e.variants[k]? = some v → vs[k]? = some p → BodyMirrors te v.fieldset p.2
+  | _, _ => False
+
+theorem variants_mirror (te : VFile.TermEnum) : ∀ (vs : List Ast.Variant) (r : List (Str × Body)),
+    (vs.mapM fun v => (bodyOf te v.fieldset).map fun b => (v.name.name, b)) = some r →
+    r.map (·.1) = vs.map (·.name.name) ∧
+    ∀ (k : Nat) (v : Ast.Variant) (p : Str × Body), vs[k]? = some v → r[k]? = some p → BodyMirrors te v.fieldset p.2 := by
+  intro vs
+  induction vs with
+  | nil => intro r h; simp at h; subst h; exact ⟨rfl, by intro k v p hv; simp at hv⟩
+  | cons v vs ih =>
+    intro r h
+    obtain ⟨y, ys, h1, h2, rfl⟩ := mapM_option_cons _ _ _ _ h
+    simp only [Option.map_eq_some_iff] at h1
+    obtain ⟨b, hb, rfl⟩ := h1
+    obtain ⟨i1, i2⟩ := ih ys h2
+    refine ⟨by simp [i1], ?_⟩
+    intro k v' p hv hp
+    cases k with
+    | zero =>
+      simp only [List.getElem?_cons_zero, Option.some.injEq] at hv hp
+      subst hv; subst hp
+      exact bodyOf_mirrors hb
+    | succ k =>
+      simp only [List.getElem?_cons_succ] at hv hp
+      exact i2 k v' p hv hp
+
+theorem typeDefOf_mirrors {te : VFile.TermEnum} {n : VFile.Nonterminal} {d : TypeDef} (h : typeDefOf te n = some d) :
+    DefMirrors te n d := by
+  cases n with
+  | struct s =>
+    simp only [typeDefOf, Option.map_eq_some_iff] at h
+    obtain ⟨b, hb, rfl⟩ := h
+    exact ⟨rfl, bodyOf_mirrors hb⟩
+  | enum e =>
+    simp only [typeDefOf, Option.map_eq_some_iff] at h
+    obtain ⟨vs, hvs, rfl⟩ := h
+    obtain ⟨a1, a2⟩ := variants_mirror te e.variants vs hvs
+    exact ⟨rfl, a1, a2⟩
+
+theorem mapM_mirrors (te : VFile.TermEnum) : ∀ (ns : List VFile.Nonterminal) (ds : List TypeDef),
+    ns.mapM (typeDefOf te) = some ds →
+    ∀ (k : Nat) (n : VFile.Nonterminal) (d : TypeDef), ns[k]? = some n → ds[k]? = some d → DefMirrors te n d := by
+  intro ns
+  induction ns with
+  | nil => intro ds h k n d hn; simp at hn
+  | cons n0 ns ih =>
+    intro ds h k n d hn hd
+    obtain ⟨d0, ds', h1, h2, rfl⟩ := mapM_option_cons _ _ _ _ h
+    cases k with
+    | zero =>
+      simp only [List.getElem?_cons_zero, Option.some.injEq] at hn hd
+      subst hn; subst hd
+      exact typeDefOf_mirrors h1
+    | succ k =>
+      simp only [List.getElem?_cons_succ] at hn hd
+      exact ih ds' h2 k n d hn hd
+
+/-- **C06, field level**: the `k`-th emitted item mirrors the `k`-th declaration: same name; a struct's field list,
+and each enum variant's (same variant names, same order), is unit-like when no field is used and otherwise
+lists exactly the used fields in declaration order — `_` fields omitted, named fields under their names —
+typed `Box<N>` for a nonterminal `N` and with the terminal's declared payload type for a terminal -/
+theorem C06_fields {f : VFile.File} {enc : Encode.Enc} {t : Table.Table} {sha : Str} {m : Module}
+    (h : moduleOf f enc t sha = some m) (k : Nat) (n : VFile.Nonterminal) (d : TypeDef)
+    (hn : f.nonterminals[k]? = some n) (hd : m.types[k]? = some d) : DefMirrors f.tenum n d := by
+  obtain ⟨_, _, _, _, _, _, _, h8, _⟩ := moduleOf_spec h
+  exact mapM_mirrors _ _ _ h8 k n d hn hd
+
 end KikiVerif.C06
 
 #print axioms KikiVerif.C06.C06_items_and_signature
+#print axioms KikiVerif.C06.C06_fields
